@@ -755,7 +755,16 @@ func (e *kvElection) StopWithContext(ctx context.Context, opts StopOptions) erro
 		)...,
 	)
 
-	if opts.DeleteKey && wasLeader {
+	if opts.DeleteKey && wasLeader && !e.ownsRecord() {
+		// the record was lost (expired, taken over, removed) before this stop: deleting the
+		// key now would remove a successor's record
+		log := e.getLogger()
+		log.Warn("key_not_deleted_not_owner",
+			append(e.logWithContext(ctx),
+				zap.String("key", e.key),
+			)...,
+		)
+	} else if opts.DeleteKey && wasLeader {
 		if err := e.kv.Delete(e.key); err != nil {
 			log := e.getLogger()
 			log.Warn("key_deletion_failed",
@@ -816,6 +825,20 @@ func (e *kvElection) StopWithContext(ctx context.Context, opts StopOptions) erro
 	}
 
 	return nil
+}
+
+// ownsRecord reports whether the leadership record currently stored carries this
+// instance's id and token.
+func (e *kvElection) ownsRecord() bool {
+	entry, err := e.kv.Get(e.key)
+	if err != nil || entry == nil {
+		return false
+	}
+	var payload leadershipPayload
+	if err := json.Unmarshal(entry.Value(), &payload); err != nil {
+		return false
+	}
+	return payload.ID == e.cfg.InstanceID && payload.Token != "" && payload.Token == e.Token()
 }
 
 func (e *kvElection) Status() ElectionStatus {
